@@ -5,8 +5,9 @@ cryptography and not the set algebra.
 """
 import re
 from engine.rules import (MustPass, guard_edges, eq_matcher, pred_matcher, outcome, aggregates_of,
-                          calls_to, call_checked, fmt_path, bool_atom, is_derived, root_fn)
+                          calls_to, call_checked, fmt_path, bool_atom, is_derived, root_fn, switch_bool_edges)
 from engine.sym import Sym, strip, strip_deep, render, walk, short, roots
+from engine import inline as INL
 from props import common as K
 
 META = {
@@ -32,6 +33,349 @@ WRAPPERS = {"validate_ta": "validate_ta_at", "validate_ca": "validate_ca_at", "v
             "validate_detached_ee": "validate_detached_ee_at", "validate_router": "validate_router_at",
             "verify_ta": "verify_ta_at", "verify_ta_ref": "verify_ta_ref_at", "verify_ca": "verify_ca_at",
             "verify_ee": "verify_ee_at", "verify_router": "verify_router_at"}
+
+
+# ---------------------------------------------------------------------------------------------------------------
+# The entry view.
+#
+# The property is stated about the public entry points (`self` = the certificate, `issuer`, `now`).  How the work is cut
+# into helpers, accessors, Deref impls, constructors and local variables in between is not part of it.  Every entry
+# point is therefore also read with all crate functions *outside* the resource-set algebra folded into it
+# (engine/inline.py: a graph rewrite of the compiler's MIR, with the variant of an inlined `return` threaded into the
+# caller's `?`).  In that body every value is spelt in the entry's vocabulary — `self.tbs.authority_key_identifier`,
+# `issuer.cert.tbs.subject_public_key_info.bits`, `issuer.v4_resources` — whether the source said
+# `self.authority_key_identifier()`, `self.tbs.authority_key_identifier`, or went through three helpers with renamed
+# parameters.  The rules below match on *field paths with their owning ADT*, rooted at an entry parameter *position*.
+
+def _ev_select(callee):
+    return not callee.startswith("repository::resources::") and callee != "crypto::keys::PublicKey::key_identifier"
+
+
+class _EVBodies:
+    def __init__(self, evf):
+        self._e = evf
+
+    def __contains__(self, n):
+        return n in self._e._f.bodies
+
+    def get(self, n, d=None):
+        b = self._e.body(n)
+        return b if b is not None else d
+
+    def __getitem__(self, n):
+        b = self._e.body(n)
+        if b is None:
+            raise KeyError(n)
+        return b
+
+
+class EntryFacts:
+    """Facts in which the named entry points are replaced by their entry views (everything else untouched)."""
+
+    def __init__(self, f, entries):
+        self._f = f
+        self._names = set(entries)
+        self._ev = {}
+        self.bodies = _EVBodies(self)
+
+    def __getattr__(self, name):
+        return getattr(self._f, name)
+
+    def body(self, name):
+        if name in self._names:
+            return self.ev(name)
+        return self._f.body(name)
+
+    def ev(self, name):
+        if name not in self._ev:
+            b = self._f.body(name)
+            nb = None
+            if b is not None:
+                try:
+                    nb = INL.inlined(self._f, b, 8, _ev_select, 200)
+                except Exception:
+                    nb = b
+            self._ev[name] = nb
+        return self._ev[name]
+
+
+def fpath(t):
+    """(root parameter, [(field, owner ADT) …]) of a pure projection chain, else None."""
+    steps = []
+    t = strip(t)
+    while True:
+        if t[0] == "field":
+            steps.append((str(t[2]), (t[3] if len(t) > 3 else None) or ""))
+            t = strip(t[1])
+        elif t[0] == "mvar":
+            t = strip(t[3])
+        else:
+            break
+    if t[0] == "param":
+        return (t[1], steps[::-1])
+    return None
+
+
+def is_field(t, root, name, owner=None, exact=False):
+    """`t` is <root parameter>.….<name> (field `name` of ADT `owner`), possibly followed by newtype projections (.0)."""
+    p = fpath(t)
+    if p is None or p[0] != root:
+        return False
+    for i, (nm, ow) in enumerate(p[1]):
+        if nm == name and (owner is None or ow.endswith(owner)):
+            rest = p[1][i + 1:]
+            if exact and rest:
+                return False
+            return all(r[0].isdigit() for r in rest)
+    return False
+
+
+def param_paths(t):
+    """Maximal parameter-rooted projection chains inside a term."""
+    out = []
+
+    def go(x):
+        x = strip(x)
+        p = fpath(x)
+        if p is not None:
+            out.append(p)
+            return
+        k = x[0]
+        if k in ("field", "variant", "discr", "len", "cast"):
+            go(x[1])
+        elif k == "un":
+            go(x[2])
+        elif k == "mvar":
+            go(x[3])
+        elif k == "index":
+            go(x[1]); go(x[2])
+        elif k == "subslice":
+            go(x[1])
+        elif k == "call":
+            for a in x[2]:
+                go(a)
+        elif k == "bin":
+            go(x[2]); go(x[3])
+        elif k == "agg":
+            for _, v in x[3]:
+                go(v)
+        elif k == "closure":
+            for a in x[2]:
+                go(a)
+    go(t)
+    return out
+
+
+def derives_from(t, root, steps):
+    """Every parameter the term depends on is `root`, and it reads root.….s1.….s2 with (field, owner) steps in order."""
+    ps = param_paths(t)
+    if not ps or any(p[0] != root for p in ps):
+        return False
+    for p in ps:
+        i = 0
+        for nm, ow in p[1]:
+            if i < len(steps) and nm == steps[i][0] and ow.endswith(steps[i][1]):
+                i += 1
+        if i == len(steps):
+            return True
+    return False
+
+
+_PAYLOAD_KEEPING = {"map_err", "ok_or", "ok_or_else", "ok", "as_ref", "as_mut", "copied", "cloned", "inspect", "inspect_err",
+                    "as_deref", "as_deref_mut"}
+
+
+def _std_optres(t):
+    return t[0] == "call" and re.match(r"^(std|core)::(option::Option|result::Result)::<", (t[3] or {}).get("fn") or "") is not None
+
+
+def _fail_only_closure(f, ct):
+    """The closure can only return Err / None."""
+    ct = strip(ct)
+    if ct[0] != "closure":
+        return False
+    cb = f.body(ct[1])
+    if cb is None:
+        return False
+    oc = outcome(cb)
+    return bool(oc.fail_blocks) and not oc.success_assign_blocks
+
+
+def carrier(f, t):
+    """Peel the combinators that keep both the variant and the success payload of an Option / Result."""
+    t = strip(t)
+    while _std_optres(t) and t[2]:
+        nm = (t[3] or {}).get("name")
+        if nm in _PAYLOAD_KEEPING:
+            t = strip(t[2][0])
+        elif nm == "or_else" and len(t[2]) == 2 and _fail_only_closure(f, t[2][1]):
+            t = strip(t[2][0])
+        else:
+            break
+    return t
+
+
+def payload_of(f, t):
+    """If `t` is the success payload of an Option / Result X (as bound by a pattern, by `?`, or by unwrap/expect — all of
+    which yield nothing else on the other variant): X with payload-keeping combinators peeled.  Else None."""
+    t = strip(t)
+    if t[0] == "field" and str(t[2]) == "0":
+        v = strip(t[1])
+        if v[0] == "variant":
+            inner = strip(v[1])
+            if v[2] in ("Some", "Ok"):
+                return carrier(f, inner)
+            if v[2] == "Continue" and inner[0] == "call" and (inner[3] or {}).get("name") == "branch" and \
+                    ((inner[3] or {}).get("trait") or "").endswith("ops::Try") and len(inner[2]) == 1:
+                return carrier(f, inner[2][0])
+    if _std_optres(t) and (t[3] or {}).get("name") in ("unwrap", "expect") and t[2]:
+        return carrier(f, t[2][0])
+    return None
+
+
+def _drop_newtype(t):
+    t = strip(t)
+    while t[0] == "field" and str(t[2]).isdigit() and strip(t[1])[0] != "variant":
+        t = strip(t[1])
+    return t
+
+
+def opt_payload_is(f, t, pred):
+    """`t` is the Some-payload of an Option satisfying pred (possibly behind a newtype projection)."""
+    for x in (t, _drop_newtype(t)):
+        p = payload_of(f, x)
+        if p is not None and pred(p):
+            return True
+    return False
+
+
+def eq_sides_matcher(pa, pb, f=None, opt_a=None):
+    """Guard matcher for `A == B` (either order, any spelling bool_atom decodes) with A, B given as predicates on terms.
+    With opt_a (a predicate on an Option-valued term): also `optA == Some(B)` and `payload(optA) == B`."""
+    def m(rel, a, b):
+        if rel != "eq" or b is None:
+            return None
+        for x, y in ((a, b), (b, a)):
+            if pa is not None and pa(x) and pb(y):
+                return True
+            if opt_a is not None:
+                if opt_payload_is(f, x, opt_a) and pb(y):
+                    return True
+                ys = strip(y)
+                if opt_a(carrier(f, x)) and ys[0] == "agg" and ys[2] == "Some" and ys[3] and pb(ys[3][0][1]):
+                    return True
+        return None
+    return m
+
+
+_ORD_IS = {"is_lt": ("<",), "is_le": ("<", "="), "is_gt": (">",), "is_ge": (">", "="), "is_eq": ("=",), "is_ne": ("<", ">")}
+
+
+def order_edges(body, sym, bb, lo, hi):
+    """Edges of the switch at bb on which `lo <= hi` is known, lo/hi being predicates on terms.  Understands every
+    spelling of a two-way comparison (`<`, `>=`, negations, swapped operands), the three-way `cmp` match and
+    `cmp(..).is_le()`-style tests."""
+    t = body.term(bb)
+    if t["t"] != "switch":
+        return None
+    d = strip_deep(sym.operand(t["discr"]))
+    neg = False
+    while d[0] == "un" and d[1] == "Not":
+        neg, d = not neg, strip_deep(d[2])
+
+    def cmp_call(x):
+        x = strip(x)
+        if x[0] == "call" and (x[3] or {}).get("name") == "cmp" and len(x[2]) == 2 and ((x[3] or {}).get("trait") or "").endswith("cmp::Ord"):
+            a, b = strip_deep(x[2][0]), strip_deep(x[2][1])
+            if lo(a) and hi(b):
+                return {"<": True, "=": True, ">": False}
+            if hi(a) and lo(b):
+                return {"<": False, "=": True, ">": True}
+        return None
+    # three-way match
+    if d[0] == "discr":
+        tab = cmp_call(d[1])
+        if tab is None:
+            return None
+        val = {255: "<", -1: "<", 0: "=", 1: ">"}
+        listed = {}
+        for v, tb in t["targets"]:
+            listed[val.get(v)] = tb
+        out = []
+        for o, tb in listed.items():
+            if o is not None and tab[o]:
+                out.append((bb, tb))
+        rest = [o for o in ("<", "=", ">") if o not in listed]
+        if rest and all(tab[o] for o in rest):
+            out.append((bb, t["otherwise"]))
+        return out or None
+    if t.get("dty") != "bool":
+        return None
+    e = switch_bool_edges(body, bb)
+    if e is None:
+        return None
+    f_t, t_t = e
+    if neg:
+        f_t, t_t = t_t, f_t
+    if d[0] == "call" and (d[3] or {}).get("name") in _ORD_IS and len(d[2]) == 1:
+        tab = cmp_call(d[2][0])
+        if tab is None:
+            return None
+        yes = _ORD_IS[d[3]["name"]]
+        no = [o for o in ("<", "=", ">") if o not in yes]
+        if all(tab[o] for o in yes):
+            return [(bb, t_t)]
+        if all(tab[o] for o in no):
+            return [(bb, f_t)]
+        return None
+    at = bool_atom(d)
+    if at is None or at[0] not in ("lt", "le", "gt", "ge"):
+        return None
+    rel, a, b, pos = at
+    if rel == "gt":
+        rel, a, b = "lt", b, a
+    elif rel == "ge":
+        rel, a, b = "le", b, a
+    if rel == "le" and lo(a) and hi(b):
+        return [(bb, t_t)] if pos else [(bb, f_t)]
+    if rel == "lt" and hi(a) and lo(b):
+        return [(bb, f_t)] if pos else [(bb, t_t)]
+    return None
+
+
+class Tee:
+    """Collects the obligations of a shared rule instance so that a failing one can be re-decided on the entry view
+    before it is reported (`rescue(key) -> reason or None`).  Nothing that holds is touched, nothing is dropped."""
+
+    def __init__(self, ctx):
+        self._ctx = ctx
+        self.obs = []
+
+    def __getattr__(self, n):
+        return getattr(self._ctx, n)
+
+    def ob(self, rule, key, ok, what, where=None, detail=None, nontrivial=True):
+        self.obs.append([rule, key, bool(ok), what, where, detail, nontrivial])
+        return bool(ok)
+
+    def missing(self, rule, key, what):
+        return self.ob(rule, key, False, "anchor missing: " + what)
+
+    def floor(self, rule, name, count, minimum):
+        return self.ob(rule, "floor:" + name, count >= minimum,
+                       "%s: matched %d instance(s), floor %d" % (name, count, minimum), nontrivial=False)
+
+    def flush(self, rescue):
+        for rule, key, ok, what, where, detail, nontrivial in self.obs:
+            if not ok:
+                why = rescue(rule, key)
+                if why:
+                    ok = True
+                    what += "  [as written the pattern is not matched; established on the entry views: %s]" % why
+            self._ctx.ob(rule, key, ok, what, where=where, detail=detail, nontrivial=nontrivial)
+        self.obs = []
+
+
 
 
 def run(ctx):
